@@ -26,6 +26,36 @@ def pkey(p):
     return '/'.join(parts)
 
 
+def _freeze(p):
+    import json
+    return json.dumps(p, sort_keys=True)
+
+
+def _thaw(s):
+    import json
+    return json.loads(s)
+
+
+CURRENT = []     # the regions being evaluated (innermost last): lets call oracles dereference reference values
+
+
+def deref(region, env, v, depth=4):
+    """follow reference values to what they point at"""
+    if region is None and CURRENT:
+        region = CURRENT[-1]
+    for _ in range(depth):
+        if isinstance(v, tuple) and v and v[0] == 'ref':
+            if v[1] in env:
+                v = env[v[1]]
+            elif len(v) > 2 and v[2] and region is not None:
+                v = region.get(env, _thaw(v[2]))
+            else:
+                return UNKNOWN
+        else:
+            break
+    return v
+
+
 def _cmp(op, a, b):
     return {'Eq': a == b, 'Ne': a != b, 'Lt': a < b, 'Le': a <= b, 'Gt': a > b, 'Ge': a >= b}[op]
 
@@ -58,6 +88,13 @@ class Region:
                 f = p['p'][-1]['f']
                 if f < len(v[1]):
                     return v[1][f]
+        # named field of a known struct value
+        if p['p'] and isinstance(p['p'][-1], dict) and 'n' in p['p'][-1] and 'dc' not in p['p'][-1]:
+            v = self.get(env, {'l': p['l'], 'p': p['p'][:-1]})
+            if isinstance(v, tuple) and v and v[0] == 'struct':
+                for fn_, fv in v[2]:
+                    if fn_ == p['p'][-1]['n']:
+                        return fv
         # payload of a known Option value: (x as Some).0
         if len(p['p']) >= 2 and isinstance(p['p'][-1], dict) and 'f' in p['p'][-1] and isinstance(p['p'][-2], dict) and p['p'][-2].get('dc') == 'Some':
             v = self.get(env, {'l': p['l'], 'p': p['p'][:-2]})
@@ -78,7 +115,11 @@ class Region:
         if p['p'] and p['p'][-1] == '*':
             v = self.get(env, {'l': p['l'], 'p': p['p'][:-1]})
             if isinstance(v, tuple) and v and v[0] == 'ref':
-                return env.get(v[1], UNKNOWN)
+                if v[1] in env:
+                    return env[v[1]]
+                if len(v) > 2 and v[2]:
+                    return self.get(env, _thaw(v[2]))
+                return UNKNOWN
         return UNKNOWN
 
     def opval(self, env, o):
@@ -102,7 +143,13 @@ class Region:
         if k == 'use':
             return self.opval(env, rv['op'])
         if k == 'ref':
-            return ('ref', pkey(rv['place']))
+            pl = rv['place']
+            # a re-borrow `&*x` of something that already stands for a reference is that reference
+            if pl['p'] == ['*']:
+                v0 = env.get('_%d' % pl['l'], UNKNOWN)
+                if v0 is not UNKNOWN:
+                    return v0
+            return ('ref', pkey(pl), _freeze(pl))
         if k == 'bin':
             a, b = self.opval(env, rv['a']), self.opval(env, rv['b'])
             op = rv['op']
@@ -146,7 +193,9 @@ class Region:
                 return 'none' if var == 'None' else ('some', ops[0] if ops else UNKNOWN)
             if adt == 'std::result::Result':
                 return ('ok', ops[0] if ops else UNKNOWN) if var == 'Ok' else ('err', ops[0] if ops else UNKNOWN)
-            return ('adt', adt.split('::')[-1], var)
+            if rv.get('fields') and var == adt.split('::')[-1]:
+                return ('struct', adt.split('::')[-1], tuple(zip(rv['fields'], ops)))
+            return ('adt', adt.split('::')[-1], var) if not ops else ('adt', adt.split('::')[-1], var, tuple(ops))
         if k == 'cast':
             v = self.opval(env, rv['op'])
             return v if isinstance(v, int) and not isinstance(v, bool) else UNKNOWN
@@ -311,7 +360,33 @@ def returns(mir, body, env0, call_oracle, field_oracle=None, depth=3):
             return UNKNOWN
         if nm.endswith('::from_residual'):
             return vals[0] if vals else UNKNOWN
-        return call_oracle(t, vals, env)
+        if nm == 'std::option::Option::unwrap_or' and len(vals) == 2:
+            if vals[0] == 'none':
+                return vals[1]
+            if isinstance(vals[0], tuple) and vals[0] and vals[0][0] == 'some':
+                return vals[0][1]
+            return UNKNOWN
+        r = call_oracle(t, vals, env)
+        if r is not UNKNOWN:
+            return r
+        # a small function of the crate itself: evaluate it on the abstract arguments
+        cal = t.get('callee')
+        cb = mir.by_id.get(cal) if cal else None
+        if cb is None and cal:
+            cs = mir.by_nid.get(strip_generics(cal), [])
+            cb = cs[0] if len(cs) == 1 else None
+        if cb is not None and depth > 0 and cb.kind == 'fn' and len(cb.blocks) <= 40:
+            e0 = {}
+            for i, a in enumerate(vals):
+                if a is not UNKNOWN:
+                    if isinstance(a, tuple) and a and a[0] == 'ref' and a[1] in env:
+                        e0['#arg%d' % i] = env[a[1]]
+                        e0['_%d' % (1 + i)] = ('ref', '#arg%d' % i)
+                    else:
+                        e0['_%d' % (1 + i)] = a
+            rs = returns(mir, cb, e0, call_oracle, field_oracle, depth - 1)
+            return next(iter(rs)) if len(rs) == 1 else UNKNOWN
+        return UNKNOWN
 
     def event(kind, bb, idx, node, env, R):
         if kind == 'term' and node['k'] == 'return':
@@ -320,7 +395,11 @@ def returns(mir, body, env0, call_oracle, field_oracle=None, depth=3):
         return None
 
     R0 = Region(body, oracle, event, field_oracle)
-    evs, silent, over = R0.run(0, dict(env0))
+    CURRENT.append(R0)
+    try:
+        evs, silent, over = R0.run(0, dict(env0))
+    finally:
+        CURRENT.pop()
     out = set()
     for e in evs:
         if isinstance(e, tuple) and e[0] == 'ret':
